@@ -117,6 +117,136 @@ for comps in (("ns", "ew", "vt"), ("vt",), ("ns", "ew")):
                                       label=f"hvsrpy.window_rejection.maximum_value_window_rejection[{'+'.join(comps)},{'normalised' if normalized else 'absolute'},hvsr={attach}]",
                                       clauses=["keep iff largest absolute sample (relative when normalised) below threshold; same objects in order; masks = selection"]))
 
+# ---------------------------------------------------------------------------------------------------------------------
+# sta_lta_window_rejection: same list / mask bookkeeping, criterion per component from short- and long-term averages.  The averages are
+# *named*: STAV(x, q, p)[j] = mean |x[j p : (j+1) p]| (q averages of p samples), LTAV(x, n) = mean |x[0:n]|; np.mean over the samples is
+# trusted (A-NP-MEAN), reshape and abs are executed symbolically and matched against those definitions.
+from pyvc.core import FuncV, ModV, ARef, Undecided, as_int
+
+ARs = z3.ArraySort(I, R)
+STA_S, LTA_S, RMIN, RMAX = z3.Reals("sta_seconds lta_seconds min_sta_lta_ratio max_sta_lta_ratio")
+STAV = z3.Function("STAV", ARs, I, I, ARs)
+LTAV = z3.Function("LTAV", ARs, I, R)
+AMP = objects.arr_term("TimeSeries", "amplitude")
+DTf = fld("TimeSeries", "dt_in_seconds", R)
+KEEP = z3.Function("KEEP", I, B)             # record r passes on every examined component
+KC2 = z3.Function("KC2", I, I)
+
+
+def _fl(x):
+    return z3.ToInt(x)
+
+
+def _comp_terms(tsid):
+    n = arr_len("TimeSeries", "amplitude", tsid)
+    p = _fl(STA_S / DTf(tsid))                       # samples per short-term average
+    q = n / p                                        # number of short-term averages (integer division)
+    pl = _fl(LTA_S / DTf(tsid))                      # samples of the long-term average
+    nl = z3.If(pl < p * q, pl, p * q)                # ... taken from the shortened series
+    return n, p, q, pl, nl
+
+
+def _comp_ok(tsid):
+    n, p, q, pl, nl = _comp_terms(tsid)
+    j = z3.Int("j!sl")
+    ratio = z3.Select(STAV(AMP(tsid), q, p), j) / LTAV(AMP(tsid), nl)
+    return z3.ForAll([j], z3.Implies(z3.And(j >= 0, j < q), z3.And(ratio <= RMAX, ratio >= RMIN)))
+
+
+def _find_base(t, acc):
+    if z3.is_app(t) and t.decl().name().startswith("fld_TimeSeries_amplitude_array"):
+        acc.append(t)
+        return
+    for c_ in t.children():
+        _find_base(c_, acc)
+    if z3.is_quantifier(t):
+        _find_base(t.body(), acc)
+
+
+def _m_mean_sl(ex, st, args, kw, node):
+    d = ex.arr(st, args[0])
+    base = []
+    _find_base(d.data, base)
+    if not base:
+        raise Undecided("np.mean of something that is not built from a time series' samples")
+    A = base[0]
+    ab = lambda x: z3.If(x >= 0, x, -x)
+    if d.rank == 2 and z3.is_int_value(z3.simplify(kw.get("axis", z3.IntVal(-9)))) and z3.simplify(kw["axis"]).as_long() == 1:
+        r, c = z3.Ints("r!mm c!mm")
+        got = z3.simplify(z3.Select(z3.Select(d.data, r), c))
+        want = z3.simplify(ab(z3.Select(A, r * d.shape[1] + c)))
+        if not got.eq(want) and not z3.simplify(got - want).eq(z3.RealVal(0)):
+            raise Undecided(f"np.mean(axis=1) of an expression the abstraction does not name: {got}")
+        ex.safe(st, "mean-of-nonempty-rows", d.shape[1] >= 1, node)
+        return ex.alloc_arr(st, (d.shape[0],), STAV(A, d.shape[0], d.shape[1]), "real", "fresh", tag="sta")
+    if d.rank == 1 and not kw:
+        c = z3.Int("c!mm")
+        got = z3.simplify(z3.Select(d.data, c))
+        want = z3.simplify(ab(z3.Select(A, c)))
+        if not got.eq(want) and not z3.simplify(got - want).eq(z3.RealVal(0)):
+            raise Undecided(f"np.mean of an expression the abstraction does not name: {got}")
+        return LTAV(A, d.shape[0])
+    raise Undecided("np.mean in this form")
+
+
+def _sl_inputs(comps, attach):
+    base = make_inputs(comps, False, attach)
+
+    def mk(ex, st):
+        facts = base(ex, st)
+        for k in ("maximum_value_threshold", "normalized"):
+            st.env.pop(k, None)
+        st.env["sta_seconds"], st.env["lta_seconds"], st.env["min_sta_lta_ratio"], st.env["max_sta_lta_ratio"] = STA_S, LTA_S, RMIN, RMAX
+        r = z3.Int("r!sl")
+        for c in comps:
+            n, p, q, pl, nl = _comp_terms(comp_id(r, c))
+            # stated input domain: positive steps, at least one sample per short-term average (else the real code divides by zero), and a long-term
+            # average that is defined and non-zero
+            facts += [z3.ForAll([r], z3.And(DTf(comp_id(r, c)) > 0, p >= 1, pl >= 1, LTAV(AMP(comp_id(r, c)), nl) != 0), patterns=[comp_id(r, c)])]
+        return facts + [STA_S > 0, LTA_S > 0]
+    return mk
+
+
+def _sl_axioms(comps):
+    r, q = z3.Ints("r!k q!k")
+    ok = lambda rr: z3.And(*[_comp_ok(comp_id(rr, c)) for c in comps])
+    return [z3.ForAll([r], KEEP(r) == ok(r), patterns=[KEEP(r)]),
+            KC2(0) == 0, z3.ForAll([r], z3.Implies(r >= 0, KC2(r + 1) == KC2(r) + z3.If(KEEP(r), 1, 0)), patterns=[KC2(r + 1)]),
+            z3.ForAll([r], z3.Implies(r >= 0, z3.And(KC2(r) >= 0, KC2(r) <= r)), patterns=[KC2(r)]),
+            z3.ForAll([r, q], z3.Implies(z3.And(0 <= r, r <= q), KC2(r) <= KC2(q)), patterns=[z3.MultiPattern(KC2(r), KC2(q))]),
+            z3.ForAll([r, q], z3.Implies(z3.And(0 <= r, r < q, KEEP(r)), KC2(r) < KC2(q)), patterns=[z3.MultiPattern(KC2(r), KC2(q))])]
+
+
+def sl_contract(comps, attach):
+    ens = ["len(result) == KC2(L)", "forall(r, 0, L, implies(KEEP(r), result[KC2(r)] is records[r]))"]
+    mask = lambda obj: [f"len({obj}.valid_window_boolean_mask) == L and len({obj}.valid_peak_boolean_mask) == L",
+                        f"forall(r, 0, L, {obj}.valid_window_boolean_mask[r] == KEEP(r))", f"forall(r, 0, L, {obj}.valid_peak_boolean_mask[r] == KEEP(r))"]
+    if attach == "traditional":
+        ens += mask("hvsr")
+    exceeds = " or ".join(f"exists(r, 0, L, NPS(r, '{c}') > NSAMP(r, '{c}') or NPL(r, '{c}') > NSAMP(r, '{c}'))" for c in comps)
+    gh = {"KEEP": KEEP, "KC2": KC2,
+          "NPS": FuncV(lambda ex, st, a, k, n_: _comp_terms(comp_id(a[0], a[1].s))[1], "NPS"), "NPL": FuncV(lambda ex, st, a, k, n_: _comp_terms(comp_id(a[0], a[1].s))[3], "NPL"),
+          "NSAMP": FuncV(lambda ex, st, a, k, n_: _comp_terms(comp_id(a[0], a[1].s))[0], "NSAMP")}
+    c = Contract(
+        qual="hvsrpy.window_rejection.sta_lta_window_rejection",
+        params=["records", "sta_seconds", "lta_seconds", "min_sta_lta_ratio", "max_sta_lta_ratio", "components", "hvsr"],
+        ghost=gh, ensures=ens, raises_only_if={"IndexError": exceeds}, axioms=_sl_axioms(comps), make_inputs=_sl_inputs(comps, attach),
+        loops={0: ["len(passing_records) == KC2(_k0)", "len(valid_window_boolean_mask) == _k0",
+                   "forall(i, 0, _k0, valid_window_boolean_mask[i] == KEEP(i))",
+                   "forall(i, 0, _k0, implies(KEEP(i), passing_records[KC2(i)] is records[i]))"]},
+        sym_lists={"passing_records": "SeismicRecording3C", "valid_window_boolean_mask": "bool"}, modifies=["param:hvsr"],
+        notes="a window is kept iff on every examined component every short-term average over the long-term average lies in [min, max]")
+    c.array_fields_as_terms = True
+    return c
+
+
+_NP_SL = ModV("np", dict(__import__("pyvc.npmodel", fromlist=["NP"]).NP.attrs, mean=FuncV(_m_mean_sl, "np.mean")))
+for comps in (("ns", "ew", "vt"), ("vt",)):
+    for attach in ("none", "traditional"):
+        TASKS.append(FunctionTask(sl_contract(comps, attach), module_env={"HvsrTraditional": HVT, "HvsrAzimuthal": HVA, "np": _NP_SL},
+                                  label=f"hvsrpy.window_rejection.sta_lta_window_rejection[{'+'.join(comps)},hvsr={attach}]",
+                                  clauses=["keep iff all short-term / long-term ratios of all examined components lie within the limits; same objects in order; masks = selection"]))
+
 from pyvc.contract import LemmaTask
 _r, _q = z3.Ints("r q")
 _kp = z3.Bool("keep_q")
@@ -129,8 +259,13 @@ META = dict(
     level="other",
     explanation="proved: maximum_value_window_rejection for three component subsets x normalised/absolute x (no object, traditional, two-azimuth azimuthal): the "
                 "returned list is the order-preserving subsequence of the same objects with largest absolute sample (relative to the overall largest when "
-                "normalised) below the threshold, attached objects end with both masks equal to that selection; bounded: sta_lta_window_rejection "
-                "(numpy reshape / mean(axis=1) outside the subset) and the same maximum-value contract natively incl. call sequences",
+                "normalised) below the threshold, attached objects end with both masks equal to that selection; sta_lta_window_rejection (2 component subsets x "
+                "no / traditional object): kept iff on every examined component every short-term average over the long-term average lies within [min, max] "
+                "(averages named: STAV(x, q, p)[j] = mean |x[jp:(j+1)p]|, LTAV(x, n) = mean |x[:n]|; reshape and abs executed symbolically and matched, "
+                "np.mean trusted), same list / mask bookkeeping, IndexError only if an averaging length exceeds the record; bounded: both contracts natively "
+                "incl. call sequences and the numeric value of the averages",
     trusted_base=["A-REAL", "A-PY", "A-NP-MAX / A-NP-ABS", "symbolic list/object model", "azimuthal case proved for two azimuths (loop over a concrete list unrolled)", "PyVC engine + z3/cvc5"],
-    assumptions=["A-REAL", "A-PY", "A-NP-MAX", "A-NP-MEAN (bounded)", "A-NP-RESHAPE (bounded)"],
+    assumptions=["A-REAL", "A-PY", "A-NP-MAX", "A-NP-MEAN (np.mean over samples = the named averages; numeric value bounded)",
+                 "A-NP-RESHAPE (C order: element (r, c) of x.reshape((a, b)) is x[r b + c])",
+                 "sta_lta: positive time steps, at least one sample per short-term average (otherwise the real code divides by zero), long-term average non-zero"],
 )
